@@ -442,7 +442,7 @@ func init() {
 	core.Register(&core.Prop{
 		ID:    "C04",
 		Level: "model_checking",
-		Rule: "full product: 1-3 (thorough 4) files x sizes {0,1,2,5,9} (not all empty) x volumes {1,2,3} x every assignment of {intact, deleted, last byte changed, truncated, emptied} to the files x every subset of deleted volumes; " +
+		Rule: "(later rounds added: the PAR1 decoder protocol search, both alphabets; a fresh-process probe whose first PAR1 call handles 158 / 200 / 254 files; runs of 9..12, 30 and all-but-three deleted volumes in sets of 20 / 60 / 99; files of 65535 / 65536 / 65537 / 131072 bytes; disk twins from another working directory with upper-case look-alike volumes of another set beside them, three spellings of the index path and a symlinked file) full product: 1-3 (thorough 4) files x sizes {0,1,2,5,9} (not all empty) x volumes {1,2,3} x every assignment of {intact, deleted, last byte changed, truncated, emptied} to the files x every subset of deleted volumes; " +
 			"all <=2-deviation scenarios around sets with Unicode/astral names, sizes around 16 KiB, 20/40 files; 10/98/99 volumes with non-contiguous survivors. Each scenario runs real Create, Verify, Verify(all data), Repair. " +
 			"Oracle: byte comparison for counts; reference GF(2^8) rank of the system on the first present volumes for must-succeed. non-trivial = damaged scenario where Repair wrote >=1 file",
 		Assumptions: []string{"klauspost/reedsolomon picks the first present shards in order; the reference recomputes singularity of exactly that system with its own GF(2^8)"},
